@@ -17,7 +17,7 @@ MANIFEST = {
     "category": "proof",
     "technique": "contract-based deductive verification, relational mode on the real layer: ConvContract executed on x and on g.x for every g in B_d with opaque weights and biases (every parameter value), symbolic channel counts / extents / numbers of filters, and the GENERAL G-invariant filter bank (one free parameter per sign-compatible orbit of filter entries); obligation layer(g.x) == g._{declared types} layer(x); the bias step is verified modularly against the callee contract of the convolution with the BigSum re-indexing rule for the spatial mean; z3",
     "text": "Weights, biases, inputs, channel counts, image extents and the number of filters per type are symbolic; the filter bank is the most general bank invariant under B_d (constructed from the definition of invariance, cross-checked against the real generator's counts), so the VC covers every bank the library can be given. For every g (d=2 all 8; d=3 twelve class representatives quick / all 48 thorough), enumerated signatures incl. pseudo-types and unequal channels, bias modes, padding kinds, filter and image dilations, mixed torus flags: each output block of layer(g.x) equals g acting with the block's declared (k,parity) on layer(x). Tests check one random parameter draw.",
-    "note": "relies on C04's assumed library contracts; reals not floats; signatures enumerated; cyclic translations are covered for the convolution itself in C01 and for the layer by the bounded native stand-in only; fast_convolve is dead code",
+    "note": "relies on C04's assumed library contracts; reals not floats; signatures enumerated; cyclic translations of the layer: own obligations (symbolic shift, arbitrary bank; sums re-indexed by the shift); additionally the bounded native stand-in when something is undecided; fast_convolve is dead code",
 }
 FUNCTIONS = ["ml.layers.ConvContract.__init__", "ml.layers.ConvContract.individual_convolve", "ml.layers.ConvContract.__call__",
              "functional_geometric_image.convolve_contract", "functional_geometric_image.convolve"]
@@ -25,8 +25,8 @@ TRUSTED = ["CPython for the concrete part", "structured-array engine, BigSum con
            "ASSUMED library contracts of C04"]
 ASSUMPTIONS = ["reals not floats", "filters of the bank are invariant under the group (pre-condition of the statement), modelled by the general invariant filter", "unit stride, symmetric padding (statement)"]
 EXPLANATION = "Exhaustive in g (class representatives for d=3 in quick), unbounded in parameters, channels, filter counts, extents; enumerated in signatures and options."
-GRID = {"quick": "d=2: all 8 g x 4 (signature, option) combinations; d=3: 6 g x 1; bias: 5 modes x 2 signatures x 4 g",
-        "thorough": "d=2: all g x 8 combinations; d=3: all 48 g x 3"}
+GRID = {"quick": "d=2: all 8 g x 4 (signature, option) combinations; d=3: 6 g x 1; bias: 5 modes x 2 signatures x 4 g; translations: d=2, 3 (dilation, bias mode) combinations",
+        "thorough": "d=2: all g x 8 combinations; d=3: all 48 g x 3; translations: d=2 all bias modes, d=3 two"}
 
 
 def L():
@@ -60,6 +60,10 @@ def jobs(tier):
     for ub in ["auto", "mean", "scalar", True, False]:
         for so in [[(1, 0), (0, 1), (0, 0)], [(1, 1), (2, 0)]]:
             out.append(("gvc.props.c06", "ob_bias", dict(D=2, sout=so, use_bias=ub, gs=[1, 4, 5, 6] if q else list(range(8)))))
+    # cyclic translations on fully toroidal images (symbolic shift, arbitrary bank)
+    tr = [(2, 1, False), (2, 2, "scalar"), (2, 1, "mean")] + ([] if q else [(3, 1, False), (2, 1, "auto"), (2, 1, True), (3, 1, "mean")])
+    for (D_, rd_, ub_) in tr:
+        out.append(("gvc.props.c06", "ob_translation", dict(D=D_, sin=[(0, 0), (1, 0)], sout=[(1, 0), (0, 0)], rd=rd_, use_bias=ub_)))
     # dependency: "g.x" in the statement is the library's action; the obligations use act_spec (owned by C02)
     from .common import dep_jobs
     out += dep_jobs("gvc.props.c02", lambda fn, kw: fn == "ob_entry" and kw["D"] >= 2)
@@ -144,6 +148,55 @@ def ob_layer(D, sin, sout, opt, gs):
             return arr.compare(yg[t0], act_sym(y0[t0], D, t0[0], t0[1], g, lead=1), "non-invariant bank (must break)")
         obs.append(guard(f"C06/ConvContract/D={D},in={_fmt(sin)},out={_fmt(sout)}/canary:arbitrary-filter-bank", "canary", lambda: all_paths(W.pre, canary, lambda r: r), dict(D=D)))
     return obs
+
+
+def ob_translation(D, sin, sout, rd, use_bias):
+    """on fully toroidal images (no image dilation) the layer commutes with every cyclic translation (symbolic shift), for an
+    ARBITRARY filter bank (no invariance needed) and every weight / bias value"""
+    from ..specs.act import shift_sym
+    Gm, Lm = geom(), L()
+    arr.ENUM_SMALL[0] = 3
+    sin, sout = [tuple(k) for k in sin], [tuple(k) for k in sout]
+    W = World(D)
+    for d in range(D):
+        W.pre.append(zi(W.spatial[d].ext) >= 2 * rd + 1)
+    tau = [sint(f"tau{d}", W.pre, 0) for d in range(D)]
+    for d in range(D):
+        W.pre.append(zi(tau[d]) < zi(W.spatial[d].ext))
+    ftypes = sorted({(a[0] + b[0], (a[1] + b[1]) % 2) for a in sin for b in sout})
+    blocks = {}
+    for (k, p) in ftypes:
+        n = Atom(sint(f"nf{k}{p}", W.pre), f"nf{k}{p}")
+        blocks[(k, p)] = arr.source(f"F{k}{p}", [n] + [Atom(3)] * D + [Atom(D) for _ in range(k)])
+    bank = Gm.MultiImage(blocks, D, True)
+    ich = {k: Atom(sint(f"ci{k[0]}{k[1]}", W.pre), f"ci{k[0]}{k[1]}") for k in sin}
+    och = {k: Atom(sint(f"co{k[0]}{k[1]}", W.pre), f"co{k[0]}{k[1]}") for k in sout}
+    isig = Gm.Signature(tuple((k, ich[k].ext) for k in sin))
+    osig = Gm.Signature(tuple((k, och[k].ext) for k in sout))
+    X = {k: arr.source(f"X{k[0]}{k[1]}", [ich[k]] + W.spatial + [Atom(D) for _ in range(k[0])]) for k in sin}
+    TX = {k: shift_sym(X[k], tau, D, lead=1) for k in sin}
+
+    def run():
+        bigsum.SHIFTS[:] = [(W.spatial[d].ext, tau[d]) for d in range(D)]
+        layer = Lm.ConvContract(isig, osig, bank, use_bias, 1, None, None, rd, key=("key", 0))
+        for t_ in list(layer.bias.keys()) if isinstance(layer.bias, dict) else []:
+            layer.bias[t_] = arr.source(f"BIAS{t_[0]}{t_[1]}", list(arr.lift(layer.bias[t_]).dims))
+        return layer(Gm.MultiImage(dict(X), D, True)), layer(Gm.MultiImage(dict(TX), D, True))
+
+    def post(res):
+        y0, yt = res
+        if list(y0.keys()) != list(yt.keys()):
+            return "refuted", f"key lists differ: {list(y0.keys())} vs {list(yt.keys())}", None
+        try:
+            return cmp_blocks(yt, {t: shift_sym(arr.lift(y0[t]), tau, D, lead=1) for t in y0.keys()}, D, True, list(y0.keys()), "layer(T x) vs T layer(x)")
+        finally:
+            bigsum.SHIFTS[:] = []
+
+    name = f"C06/ConvContract/D={D},in={_fmt(sin)},out={_fmt(sout)},rdil={rd},use_bias={use_bias}/ensures:commutes-with-cyclic-translations"
+    o = guard(name, "ensures", lambda: all_paths(W.pre, run, post), dict(D=D, input=sin, target=sout, rdil=rd, use_bias=str(use_bias)))
+    o["replay"] = dict(scenario="layer", model=o.get("model"), D=D, sin=sin, sout=sout, opt=dict(padding=None, rdil=rd, ldil=None, flags=[True] * D),
+                       g=np.eye(D, dtype=int).tolist(), use_bias=use_bias, shift=True)
+    return [o]
 
 
 def ob_bias(D, sout, use_bias, gs):
